@@ -167,6 +167,55 @@ Section StepChain.
     rewrite Hhs, Hds. reflexivity.
   Qed.
 
+  Lemma es_or_pre_false e : es_or_pre e false = e.
+  Proof. destruct e. unfold es_or_pre. cbn. rewrite orb_false_r. reflexivity. Qed.
+
+  Lemma tag_prologue_inv fuel c1 pr it e ts1 it1 :
+    tag_prologue src fuel c1 pr it = COk (e, ts1, it1) ->
+    parse_expression src fuel it (tk_end pr) = COk (e, it1)
+    /\ (if es_pre e then remove_previous_whitespace (c_ts c1) else COk (c_ts c1)) = COk ts1.
+  Proof.
+    unfold tag_prologue. intro H. cinv H. destruct a as [e' it']. cinv H.
+    injection H as <- <- <-. split; [reflexivity|exact E0].
+  Qed.
+
+  (* a successful parse_name does not start at a `~` token *)
+  Lemma parse_name_not_tilde fuel t0 it' r :
+    parse_name src fuel (t0 :: it') = COk r ->
+    is_rule R_leading_tilde_to_omit_whitespace t0 = false.
+  Proof.
+    destruct fuel as [|f]; [discriminate|]. rewrite parse_name_S. unfold is_rule.
+    destruct (tk_rule t0); cbn [name_classify]; try discriminate; intros _; reflexivity.
+  Qed.
+
+  (* `{{else <e>}}` and `{{~else <e>}}`: the general form.  `chain_pre` tells
+     whether a `~` token precedes the `else` item; it is or-ed into es_pre *)
+  Lemma step_invert_chain_tag_gen fuel c pr it c1 chain_pre ita nm it0 e0 it1 ts1 trim t ts3 h hs :
+    tk_rule pr = R_invert_chain_tag ->
+    trailing_string src c pr (line_col src (tk_start pr)) = COk c1 ->
+    match it with
+    | t0 :: it' => if is_rule R_leading_tilde_to_omit_whitespace t0 then (true, it') else (false, it)
+    | [] => (false, it)
+    end = (chain_pre, ita) ->
+    parse_name src fuel ita = COk (nm, it0) ->
+    parse_expression src fuel it0 (tk_end pr) = COk (e0, it1) ->
+    (if es_pre (es_or_pre e0 chain_pre) then remove_previous_whitespace (c_ts c1) else COk (c_ts c1))
+      = COk ts1 ->
+    process_standalone_statement src ts1 pr true (o_is_partial opts) = COk (trim, t :: ts3) ->
+    c_hs c = h :: hs ->
+    step src all_tokens opts fuel c pr it
+    = do h' <- link_op h t (es_or_pre e0 chain_pre) (trim && negb (es_pre (es_or_pre e0 chain_pre)));
+      COk ({| c_ts := ts3; c_hs := h' :: hs; c_ds := c_ds c; c_omit := es_pro e0;
+              c_trim := trim; c_end := Some (tk_end pr) |}, it1).
+  Proof.
+    intros Hr Ht Hpre Hn Hp Hw Hs Hh. destruct (trailing_string_stacks _ _ _ _ Ht) as (Hhs & Hds & _).
+    unfold step. rewrite Hr. cbn [tag_classify]. rewrite Ht. cbn [cbind].
+    rewrite Hpre. rewrite Hn. cbn [cbind]. rewrite Hp. cbn [cbind]. rewrite Hw. cbn [cbind].
+    rewrite Hs. cbn [cbind].
+    rewrite Hhs, Hh, Hds. unfold link_op.
+    destruct (set_chain_template (h_set_chain h true) (Some t)); reflexivity.
+  Qed.
+
   (* `{{else <e>}}` *)
   Lemma step_invert_chain_tag fuel c pr it c1 nm it0 e ts1 it1 trim t ts3 h hs :
     tk_rule pr = R_invert_chain_tag ->
@@ -180,12 +229,42 @@ Section StepChain.
       COk ({| c_ts := ts3; c_hs := h' :: hs; c_ds := c_ds c; c_omit := es_pro e;
               c_trim := trim; c_end := Some (tk_end pr) |}, it1).
   Proof.
-    intros Hr Ht Hn Hp Hs Hh. destruct (trailing_string_stacks _ _ _ _ Ht) as (Hhs & Hds & _).
-    unfold step. rewrite Hr. cbn [tag_classify]. rewrite Ht. cbn [cbind].
-    rewrite Hn. cbn [cbind]. rewrite Hp. cbn [cbind]. rewrite Hs. cbn [cbind].
-    rewrite Hhs, Hh, Hds. unfold link_op.
-    destruct (set_chain_template (h_set_chain h true) (Some t)); reflexivity.
+    intros Hr Ht Hn Hp Hs Hh. destruct (tag_prologue_inv _ _ _ _ _ _ _ Hp) as [Hpe Hw].
+    rewrite <- (es_or_pre_false e) at 1 2. 
+    eapply (step_invert_chain_tag_gen fuel c pr it c1 false it); try eassumption.
+    - destruct it as [|t0 it']; [reflexivity|].
+      rewrite (parse_name_not_tilde _ _ _ _ Hn). reflexivity.
+    - rewrite es_or_pre_false. exact Hw.
   Qed.
+
+  (* `{{~else <e>}}`: compiled like `{{else <e>}}` with omit_pre_ws set, i.e. the
+     whitespace in front of the tag is always trimmed and the link never indents *)
+  Lemma step_invert_chain_tag_tilde fuel c pr t0 it c1 nm it0 e0 it1 ts1 trim t ts3 h hs :
+    tk_rule pr = R_invert_chain_tag ->
+    trailing_string src c pr (line_col src (tk_start pr)) = COk c1 ->
+    is_rule R_leading_tilde_to_omit_whitespace t0 = true ->
+    parse_name src fuel it = COk (nm, it0) ->
+    parse_expression src fuel it0 (tk_end pr) = COk (e0, it1) ->
+    remove_previous_whitespace (c_ts c1) = COk ts1 ->
+    process_standalone_statement src ts1 pr true (o_is_partial opts) = COk (trim, t :: ts3) ->
+    c_hs c = h :: hs ->
+    step src all_tokens opts fuel c pr (t0 :: it)
+    = do h' <- link_op h t (es_or_pre e0 true) false;
+      COk ({| c_ts := ts3; c_hs := h' :: hs; c_ds := c_ds c; c_omit := es_pro e0;
+              c_trim := trim; c_end := Some (tk_end pr) |}, it1).
+  Proof.
+    intros Hr Ht Ht0 Hn Hp Hw Hs Hh.
+    rewrite (step_invert_chain_tag_gen fuel c pr (t0 :: it) c1 true it nm it0 e0 it1 ts1 trim t ts3 h hs);
+      try assumption.
+    - cbn [es_pre es_or_pre]. rewrite orb_true_r. cbn [negb]. rewrite andb_false_r. reflexivity.
+    - rewrite Ht0. reflexivity.
+    - cbn [es_pre es_or_pre]. rewrite orb_true_r. exact Hw.
+  Qed.
+
+  (* link_op only reads name, params, hash and block params of the tag: the
+     helper built for `{{~else <e>}}` is the one built for `{{else <e>}}` *)
+  Lemma link_op_es_or_pre h t e b w : link_op h t (es_or_pre e b) w = link_op h t e w.
+  Proof. reflexivity. Qed.
 
   (* `{{else}}` / `{{^}}` *)
   Lemma step_invert_tag fuel c pr it c1 e ts1 it1 trim t ts3 h hs :
@@ -200,8 +279,10 @@ Section StepChain.
               c_trim := trim; c_end := Some (tk_end pr) |}, it1).
   Proof.
     intros Hr Ht Hp Hs Hh. destruct (trailing_string_stacks _ _ _ _ Ht) as (Hhs & Hds & _).
+    destruct (tag_prologue_inv _ _ _ _ _ _ _ Hp) as [Hpe Hw].
     unfold step. rewrite Hr. cbn [tag_classify]. rewrite Ht. cbn [cbind].
-    rewrite Hp. cbn [cbind]. rewrite Hs. cbn [cbind].
+    rewrite Hpe. cbn [cbind]. rewrite es_or_pre_false. rewrite Hw. cbn [cbind].
+    rewrite Hs. cbn [cbind].
     rewrite Hhs, Hh, Hds.
     destruct (set_chain_template h (Some t)); reflexivity.
   Qed.
@@ -377,4 +458,74 @@ Proof.
     end
   end.
   repeat split; vm_compute; reflexivity.
+Qed.
+
+(* ---------- `{{~else if b}}`: a chain tag with a leading tilde ---------- *)
+Definition ex_tilde_src : str := `"{{#if a}}0  {{~else if b}}1{{/if}}".
+Definition ex_tilde_tokens : list tok :=
+  match hb_parse (peg_fuel ex_tilde_src) R_handlebars ex_tilde_src with Parsed ts => ts | _ => [] end.
+
+(* through the whole compiler: same nest as without the tilde, and the
+   whitespace in front of the tag is trimmed from the first body *)
+Example chain_tilde_compile_example :
+  exists e0 e1 b0 b1,
+    compile2 ex_tilde_src default_opts
+    = COk (MkT None
+             [ElBlock (MkH (es_name e0) (es_params e0) (es_hash e0) (es_bp e0) (Some b0)
+                           (nest [(e1, b1, false)] None) true true false)]
+             [(1, 1)])
+    /\ b0 = MkT None [ElRaw (`"0")] [(1, 10)]
+    /\ chain_ops 2 e0 false b0 [(e1, b1, false)] None
+       = COk (MkH (es_name e0) (es_params e0) (es_hash e0) (es_bp e0) (Some b0)
+                  (nest [(e1, b1, false)] None) true true false).
+Proof.
+  exists {| es_name := PName (`"if"); es_params := [PPath (PathRelative [SegNamed (`"a")] (`"a"))];
+            es_hash := []; es_bp := None; es_pre := false; es_pro := false |}.
+  exists {| es_name := PName (`"if"); es_params := [PPath (PathRelative [SegNamed (`"b")] (`"b"))];
+            es_hash := []; es_bp := None; es_pre := true; es_pro := false |}.
+  exists (MkT None [ElRaw (`"0")] [(1, 10)]), (MkT None [ElRaw (`"1")] [(1, 27)]).
+  split; [vm_compute; reflexivity|]. split; [reflexivity|]. apply chain_compile. cbn. lia.
+Qed.
+
+(* the hypotheses of step_invert_chain_tag_tilde on pest's tokens *)
+Example step_invert_chain_tag_tilde_example :
+  exists c pr t0 it c1 nm it0 e0 it1 ts1 trim t ts3 h hs,
+    tk_rule pr = R_invert_chain_tag /\
+    trailing_string ex_tilde_src c pr (line_col ex_tilde_src (tk_start pr)) = COk c1 /\
+    is_rule R_leading_tilde_to_omit_whitespace t0 = true /\
+    parse_name ex_tilde_src 100 it = COk (nm, it0) /\
+    parse_expression ex_tilde_src 100 it0 (tk_end pr) = COk (e0, it1) /\
+    remove_previous_whitespace (c_ts c1) = COk ts1 /\
+    process_standalone_statement ex_tilde_src ts1 pr true (o_is_partial default_opts)
+      = COk (trim, t :: ts3) /\
+    c_hs c = h :: hs /\
+    exists r, step ex_tilde_src ex_tilde_tokens default_opts 100 c pr (t0 :: it) = COk r.
+Proof.
+  lazymatch eval vm_compute in
+      (run_steps ex_tilde_src ex_tilde_tokens default_opts 4 100 init_cstate
+                 (filter (fun t => negb (is_rule R_escape t)) ex_tilde_tokens)) with
+  | Some (?c, ?pr :: ?t0 :: ?it) =>
+      exists c, pr, t0, it;
+      let c1 := ex_val (trailing_string ex_tilde_src c pr (line_col ex_tilde_src (tk_start pr))) in
+      exists c1;
+      lazymatch eval vm_compute in (parse_name ex_tilde_src 100 it) with
+      | COk (?nm, ?it0) =>
+          exists nm, it0;
+          lazymatch eval vm_compute in (parse_expression ex_tilde_src 100 it0 (tk_end pr)) with
+          | COk (?e0, ?it1) =>
+              exists e0, it1;
+              let ts1 := ex_val (remove_previous_whitespace (c_ts c1)) in
+              exists ts1;
+              lazymatch eval vm_compute in
+                  (process_standalone_statement ex_tilde_src ts1 pr true (o_is_partial default_opts)) with
+              | COk (?trim, ?t :: ?ts3) =>
+                  exists trim, t, ts3;
+                  lazymatch eval vm_compute in (c_hs c) with
+                  | ?h :: ?hs => exists h, hs
+                  end
+              end
+          end
+      end
+  end.
+  repeat split; try (vm_compute; reflexivity). eexists. vm_compute. reflexivity.
 Qed.
